@@ -36,7 +36,10 @@ TBegin == /\ Is("begin")
           /\ pre' = Append(pre, Ev)
           /\ shown' = IF Ev.minibuf THEN shown ELSE shown \cup {Ev.line}
           /\ here' = IF Ev.minibuf THEN here ELSE here \cup {Ev.line}
-          /\ UNCHANGED <<ustack, killed, initial, clean>>
+          \* (keys typed ahead run before the call waits for the first time: the line's initial content is what the first
+          \*  command found, not what the first wait shows)
+          /\ initial' = IF initial.set \/ Ev.minibuf THEN initial ELSE [set |-> TRUE, line |-> Ev.line]
+          /\ UNCHANGED <<ustack, killed, clean>>
 
 IsRedo(p) == p.cmd \in RedoCmds /\ (p.cmd = "vi-redo" => p.upos > 0)
 TEnd ==
